@@ -212,9 +212,9 @@ var targetMethods = []string{"OPTIONS", "GET", "HEAD", "PUT", "DELETE", "MKCOL",
 // cases builds the deterministic case list of one channel kind.
 func cases(c *fw.Ctx, wire bool) []Case {
 	r := c.Rand("c03-forms", map[bool]int{false: 0, true: 1}[wire])
-	nRandom := c.Pick(150, 4000)
+	nRandom := c.Pick(150, 20000)
 	if wire {
-		nRandom = c.Pick(40, 600)
+		nRandom = c.Pick(40, 2500)
 	}
 	fs := forms(wire, r, nRandom)
 	var l []Case
